@@ -134,6 +134,12 @@ def run(prog, R):
                         src = roots_of(b, oks[0].args[0], through_calls=lambda c_: 0 if c_ and c_.path in ('std::option::Option::map', 'std::option::Option::inspect') else None)
                         ok = len(src) == 1 and src[0][0] == 'call' and src[0][1].callee.is_('policy::BufPolicy::grow_to')
                         how = 'the ok_or() alternative of the grow_to result'
+                        # ... or of the Option answer of a private function that asks the policy (`grow_buf(..) -> Option<()>` with `grow_to(cap)?`)
+                        if not ok and len(src) == 1 and src[0][0] == 'call':
+                            hb_ = prog.local_callee_body(src[0][1].callee)
+                            if hb_ is not None and 'Option' in hb_.local_tys[0] and find_call(hb_, 'policy::BufPolicy::grow_to'):
+                                ok = True
+                                how = 'the ok_or() alternative of the answer of %s, which asks the policy' % hb_.key
                     if not ok:
                         # `match grow_to(..) { None => Err(BufferLimit), .. }` or `if !grow_helper(..) { Err(BufferLimit) }`:
                         # constructed under a branch on the verdict of the policy (directly, or as reported by a function that asks it)
